@@ -72,6 +72,9 @@ FUNCS = [
     ("rtrlib/rtr/rtr.c", "rtr_set_interval_mode", {}),
     ("rtrlib/transport/transport.c", "tr_send_all", {"mem": ["pdu"], "world": True}),
     ("rtrlib/transport/transport.c", "tr_recv_all", {"mem": ["pdu"], "world": True}),
+    ("rtrlib/rtr/rtr.c", "rtr_purge_outdated_records", {"xworld": "struct rtr_socket"}),
+    ("rtrlib/rtr/rtr.c", "rtr_fsm_start", {"xworld": "struct rtr_socket", "stepwise": True}),
+    ("rtrlib/rtr/rtr.c", "rtr_stop", {"xworld": "struct rtr_socket"}),
     ("rtrlib/rtr/packets.c", "rtr_check_interval_range", {}),
     ("rtrlib/rtr/packets.c", "apply_interval_value", {}),
     ("rtrlib/rtr/packets.c", "rtr_check_interval_option", {}),
@@ -108,6 +111,22 @@ BSWAP = {"ntohl": 32, "htonl": 32, "__bswap_32": 32, "__builtin_bswap32": 32, "_
 IGNORED_CALLS = {"lrtr_dbg"}
 # calls that leave the translated code: answered by the world (RtrModel/CSem.lean `World`), arguments recorded
 EXTERN = {"lrtr_get_monotonic_time": "time", "tr_send": "io", "tr_recv": "io"}
+# In a function translated over an `XWorld σ` (option "xworld": the record σ the function works on, e.g. struct rtr_socket) EVERY
+# call listed here leaves the translated code: the world supplies the return value, an auxiliary 64-bit value (the time, for
+# lrtr_get_monotonic_time) and - for callees that get the record (`inout`: index of that argument) - the record afterwards;
+# the call is recorded with its name, the listed scalar arguments and the record at the time of the call.
+EXTERNX = {
+    "tr_open": {"ret": True}, "tr_close": {}, "tr_free": {},
+    "rtr_send_serial_query": {"ret": True, "inout": 0}, "rtr_send_reset_query": {"ret": True, "inout": 0},
+    "rtr_sync": {"ret": True, "inout": 0}, "rtr_wait_for_sync": {"ret": True, "inout": 0},
+    "rtr_change_socket_state": {"inout": 0, "args": [1]},
+    "sleep": {"ret": True, "args": [0]},
+    "pfx_table_src_remove": {"ret": True}, "spki_table_src_remove": {"ret": True},
+    "pthread_setcancelstate": {"ret": True, "args": [0]},
+    "pthread_cancel": {"ret": True}, "pthread_join": {"ret": True},
+    "lrtr_get_monotonic_time": {"ret": True, "out64": 0},
+}
+NORETURN = {"pthread_exit"}
 
 
 class Untranslatable(Exception):
@@ -613,7 +632,9 @@ class Fn:
         self.memparams = set(opts.get("mem", []))
         self.uses_mem = bool(self.memparams)
         self.writes_mem = bool(opts.get("writes"))
-        self.uses_world = bool(opts.get("world"))
+        self.uses_world = bool(opts.get("world")) or bool(opts.get("xworld"))
+        self.xstate = opts.get("xworld")      # C record the external calls may change (XWorld σ)
+        self.done_wrap = False                # inside a stepwise loop body: results are `.done r`
         self.aux = []             # auxiliary definitions (loops), in dependency order
         self.nloops = 0
         self.params = []          # (cname, Ty, mode)  mode in scalar/value/inout/mem
@@ -669,7 +690,7 @@ class Fn:
     def sig(self):
         ps = []
         if self.uses_world:
-            ps.append("(w : C.World)")
+            ps.append("(w : %s)" % self.world_type())
         if self.uses_mem:
             ps.append("(mem : Nat → BitVec 8) (msize : Nat)")
         for name, ty, mode in self.params:
@@ -680,6 +701,14 @@ class Fn:
             else:
                 ps.append("(%s : %s)" % (self.ln(name), ty.lean()))
         return " ".join(ps)
+
+    def world_type(self):
+        if self.root.xstate:
+            return "C.XWorld %s" % struct_lean_name(self.root.xstate)
+        return "C.World"
+
+    def some_result(self, text):
+        return "some (.done %s)" % text if self.root.done_wrap else "some %s" % text
 
     def inouts(self):
         return [(n, ty) for n, ty, m in self.params if m == "inout"]
@@ -693,7 +722,7 @@ class Fn:
         if self.writes_mem:
             parts.append("(Nat → BitVec 8)")
         if self.uses_world:
-            parts.append("C.World")
+            parts.append(self.world_type())
         if not parts:
             return "Unit"
         return " × ".join(parts)
@@ -1218,7 +1247,7 @@ class Fn:
             self.find_calls(c, strict, out)
         if k == "CallExpr":
             name = self.callee_name(n)
-            if name in self.translated or name in EXTERN or self.inlinable(name):
+            if name in self.translated or self.is_extern(name) or self.inlinable(name):
                 if not strict:
                     bad("call of '%s' under a short-circuit operator" % name, n)
                 out.append(n)
@@ -1229,6 +1258,8 @@ class Fn:
         name = self.callee_name(n)
         if not self.uses_world:
             bad("external call '%s' in a function without a world" % name, n)
+        if self.root.xstate:
+            return self.emit_xextern(n, env, k)
         args = n["inner"][1:]
         kind = EXTERN[name]
         tmp = self.fresh("r")
@@ -1256,17 +1287,78 @@ class Fn:
             return self.guarded(gs, "match C.extIo w %s %s %s with\n| (%s, w) =>\n%s" % (buf.text, ln_.text, to.text, tmp, indent(k(env), 2)))
         bad("no handler for external call '%s'" % name, n)
 
+    def is_extern(self, name):
+        return name in EXTERNX if self.root.xstate else name in EXTERN
+
+    def state_var(self):
+        """the in/out parameter that holds the record the external calls may change"""
+        for pn, pty, mode in self.root.params:
+            if mode == "inout" and pty.elem.kind == "struct" and pty.elem.name == self.root.xstate:
+                return pn
+        bad("function over an XWorld has no in/out parameter of type %s" % self.root.xstate)
+
+    def emit_xextern(self, n, env, k):
+        name = self.callee_name(n)
+        spec = EXTERNX[name]
+        args = n["inner"][1:]
+        gs, rec = [], []
+        for idx in spec.get("args", []):
+            v = self.expr(args[idx], env)
+            if v.ty.kind == "bool":
+                v = self.as_int(v, Ty("int", 32, True))
+            if v.ty.kind != "int":
+                bad("recorded argument of '%s' is not an integer" % name, n)
+            gs += v.guards
+            rec.append(self.cast_int(v, Ty("int", 64, v.ty.signed)).text)
+        sv = self.state_var()
+        if "inout" in spec:
+            a = self.expr(args[spec["inout"]], env)
+            if not (a.ty.kind == "ptr" and (a.ty.name or "") == "valueptr:" + sv):
+                bad("'%s' must be called with the record parameter itself" % name, n)
+        tmp = self.fresh("r")
+        lines = []
+        if "inout" in spec:
+            lines.append("let %s : %s := st_" % (self.ln(sv), struct_lean_name(self.root.xstate)))
+        env2 = copy_env(env)
+        if "out64" in spec:
+            a = args[spec["out64"]]
+            while a.get("kind") in ("ImplicitCastExpr", "ParenExpr"):
+                a = a["inner"][0]
+            if a.get("kind") != "UnaryOperator" or a.get("opcode") != "&":
+                bad("'%s' needs &object for its result" % name, n)
+            p = self.lvalue_path(a["inner"][0], env)
+            if p["ty"].kind != "int" or p["ty"].bits != 64:
+                bad("'%s' target must be a 64-bit integer" % name, n)
+            info = self.vars[p["root"]]
+            rty = info["ty"].elem.lean() if info["mode"] in ("value", "inout") else info["ty"].lean()
+            lines.append("let %s : %s := %s" % (self.ln(p["root"]), rty, self.update_text(p, "aux_")))
+            env2["defined"].add(self.path_key(p))
+        rty = None
+        node_ty = n.get("type", {}).get("qualType", "void")
+        if spec.get("ret") and strip_quals(node_ty) != "void":
+            rt = parse_type(n["type"])
+            if rt.kind == "int":
+                lines.append("let %s : %s := %s" % (tmp, rt.lean(), "(BitVec.setWidth %d rc_)" % rt.bits if rt.bits != 64 else "rc_"))
+                n["_hoisted"] = V(tmp, rt)
+            else:
+                n["_hoisted"] = V("()", Ty("void"))
+        else:
+            n["_hoisted"] = V("()", Ty("void"))
+        body = "\n".join(lines + [k(env2)])
+        call = 'C.xcall w "%s" [%s] %s' % (name, ", ".join(rec), self.ln(sv))
+        return self.guarded(gs, "match %s with\n| (rc_, aux_, st_, w) =>\n%s" % (call, indent(body, 2)))
+
     def inlinable(self, name):
         """a function defined in this translation unit that is not translated on its own: its body is inlined at the call
         (so that extracting a helper from a translated function changes nothing in the translation)"""
         return (name not in self.translated and name in self.tu.funcs and name not in BSWAP and name not in IGNORED_CALLS
-                and name not in EXTERN and name not in ("memset", "memcpy", "memcmp") and name not in LISTED)
+                and not self.is_extern(name) and name not in NORETURN and name not in ("memset", "memcpy", "memcmp") and name not in LISTED)
 
     def emit_call(self, n, env, k):
         """hoist one translated call: returns Lean text `match f args with | none => none | some r => <k(env)>`;
         marks n["_hoisted"] with the temp that holds its value"""
         name = self.callee_name(n)
-        if name in EXTERN:
+        if self.is_extern(name):
             return self.emit_extern(n, env, k)
         if name not in self.translated:
             return self.emit_inline(n, env, k)
@@ -1530,7 +1622,7 @@ class Fn:
             if not s.get("inner"):
                 if "ret" in ctx:
                     return ctx["ret"](env, None)
-                return "some %s" % self.result_value(None)
+                return self.some_result(self.result_value(None))
             e = s["inner"][0]
 
             def fin(env2):
@@ -1541,7 +1633,7 @@ class Fn:
                     v = self.as_bool(v)
                 if "ret" in ctx:
                     return self.guarded(v.guards, ctx["ret"](env2, v.text))
-                return self.guarded(v.guards, "some %s" % self.result_value(v.text))
+                return self.guarded(v.guards, self.some_result(self.result_value(v.text)))
             return self.with_calls([e], env, fin)
         if k == "BreakStmt":
             if "brk" not in ctx:
@@ -1582,7 +1674,11 @@ class Fn:
                 env3 = copy_env(env)
                 env3["defined"].add(self.path_key(dst.path))
                 return "let %s : %s := %s\n%s" % (self.ln(root), rty, self.update_text(dst.path, src.text), nxt(env3))
-            if name in self.translated or name in EXTERN or self.inlinable(name):
+            if name in NORETURN:
+                if "ret" in ctx:
+                    bad("noreturn call inside an inlined helper", s)
+                return self.some_result(self.result_value("C.NULL" if self.ret.kind == "ptr" else None)) if self.ret.kind in ("ptr", "void") else "none"
+            if name in self.translated or self.is_extern(name) or self.inlinable(name):
                 return self.with_calls([s], env, nxt)
             bad("call of untranslated function '%s'" % name, s)
         if k in ("ImplicitCastExpr", "CStyleCastExpr", "ParenExpr"):
@@ -1627,7 +1723,7 @@ class Fn:
         params = ["(fuel : Nat)"]
         args = []
         if self.uses_world:
-            params.append("(w : C.World)")
+            params.append("(w : %s)" % self.world_type())
             args.append("w")
         if self.uses_mem:
             params.append("(mem : Nat → BitVec 8) (msize : Nat)")
@@ -1635,7 +1731,12 @@ class Fn:
         for v in live:
             params.append("(%s : %s)" % (self.ln(v), self.var_lean_type(v)))
             args.append(self.ln(v))
-        again = lambda env2: "%s fuel %s" % (lname_, " ".join(args))
+        stepwise = bool(self.root.opts.get("stepwise"))
+        if stepwise:
+            tup = "(" + ", ".join(args) + ")" if len(args) > 1 else args[0]
+            again = lambda env2: "some (.next %s)" % tup
+        else:
+            again = lambda env2: "%s fuel %s" % (lname_, " ".join(args))
         after = ctx["next"]
 
         def step(env2):
@@ -1650,6 +1751,29 @@ class Fn:
             b_txt = self.stmt(body, copy_env(env2), inner_ctx)
             a_txt = after(copy_env(env2))
             return self.guarded(c.guards, "if %s then\n%s\nelse\n%s" % (c.text, indent(paren(b_txt), 2), indent(paren(a_txt), 2)))
+        if stepwise:
+            if self.root.done_wrap:
+                bad("nested stepwise loops", s)
+            self.root.done_wrap = True
+            try:
+                body_txt = self.with_calls([cond], env_in, fin)
+            finally:
+                self.root.done_wrap = False
+            tys = []
+            if self.uses_world:
+                tys.append(self.world_type())
+            if self.uses_mem:
+                tys += ["(Nat → BitVec 8)", "Nat"]
+            tys += [self.var_lean_type(v) for v in live]
+            tupty = " × ".join(tys)
+            d1 = "def %s.step %s : Option (C.Step (%s) (%s)) :=\n%s" % (
+                lname_, " ".join(params[1:]), self.root.result_type(), tupty, indent(body_txt, 2))
+            d2 = ("def %s %s : Option (%s) :=\n  match fuel with\n  | 0 => none\n  | fuel + 1 =>\n    match %s.step %s with\n    | none => none\n"
+                  "    | some (.done r_) => some r_\n    | some (.next %s) => %s fuel %s") % (
+                lname_, " ".join(params), self.root.result_type(), lname_, " ".join(args), tup, lname_, " ".join(args))
+            self.root.aux.append(d1)
+            self.root.aux.append(d2)
+            return "%s C.FUEL %s" % (lname_, " ".join(args))
         body_txt = self.with_calls([cond], env_in, fin)
         d = "def %s %s : Option (%s) :=\n  match fuel with\n  | 0 => none\n  | fuel + 1 =>\n%s" % (
             lname_, " ".join(params), self.root.result_type(), indent(body_txt, 4))
@@ -1868,7 +1992,7 @@ class Fn:
 
         def fall_off(env2):
             if self.ret.kind == "void":
-                return "some %s" % self.result_value(None)
+                return self.some_result(self.result_value(None))
             return "none"
         txt = self.stmt(body, env, {"next": fall_off})
         if "__UNINIT__" in txt:
